@@ -320,6 +320,13 @@ pub fn corpus(tier: Tier) -> Vec<String> {
         }
     }
     out.push("-mmin 1 -fprint f".to_string());
+    for p in ["]a[", "][", "a]b[c", "[]", "[!]", "[a-", "]", "[[]", "*[", "?]["] {
+        for kw in ["-name", "-iname", "-path", "-ipath"] {
+            out.push(format!("{kw} '{p}'"));
+            out.push(format!("{kw} '{p}' -print0"));
+        }
+        out.push(format!("-xattr-match '{p}' '{p}'"));
+    }
     // trees built through the public constructors (see children::built_trees)
     for k in 0..crate::props::children::built_trees().len() {
         out.push(format!("\u{1}T:{k}"));
